@@ -1091,3 +1091,32 @@ func TestD30_RedefinedFunctionWithNamedInterfaceInput(t *testing.T) {
 		t.Fatalf("got %v", res.Out(0))
 	}
 }
+
+// D32 (C16): "Any conflicting arguments given on Call will override these
+// args. This can be used to provide some initial values, converters, etc."
+// The call graph holds one function per Go function type and kept the FIRST
+// one it was given; defaults come first, so a converter given at Call could
+// never take the place of a default converter with the same signature.
+func TestD32_CallConverterOverridesDefaultConverter(t *testing.T) {
+	prod := func(i int) string { return "prod" }
+	test := func(i int) string { return "test" }
+	f := argmapper.MustFunc(argmapper.NewFunc(func(s string) string { return s }, argmapper.Converter(prod)))
+	res, p := call(f, argmapper.Typed(7))
+	if p != nil || res.Err() != nil || res.Out(0).(string) != "prod" {
+		t.Fatalf("default converter alone: %v %v", p, res.Err())
+	}
+	for i := 0; i < 50; i++ {
+		res, p = call(f, argmapper.Typed(7), argmapper.Converter(test))
+		if p != nil || res.Err() != nil {
+			t.Fatalf("%v %v", p, res.Err())
+		}
+		if got := res.Out(0).(string); got != "test" {
+			t.Fatalf("iteration %d: the converter given at Call was ignored in favour of the default one (got %q)", i, got)
+		}
+	}
+	// the default still applies to the next call without an override
+	res, _ = call(f, argmapper.Typed(7))
+	if res.Out(0).(string) != "prod" {
+		t.Fatalf("default converter afterwards: %v", res.Out(0))
+	}
+}
